@@ -32,10 +32,14 @@ fn thr_class(k: i64) -> f64 {
 }
 
 fn drive(res: &String, nargs: usize, with_attachments: bool) {
-    // two entries with boundary batch counts, arguments and attachments; time moves in between
-    let mut t = T0 + 9_900;
+    drive_from(res, nargs, with_attachments, T0 + 9_900, true)
+}
+
+fn drive_from(res: &String, nargs: usize, with_attachments: bool, t0: u64, boundary_batches: bool) {
+    // two entries with boundary batch counts (or single tokens), arguments and attachments; time moves in between
+    let mut t = t0;
     for round in 0..2 {
-        let batch = sel_u32("batch", 0, 1, 1_000_000);
+        let batch = if boundary_batches { sel_u32("batch", 0, 1, 1_000_000) } else { 1 };
         let mut b = EntryBuilder::new(res.clone())
             .with_resource_type(ResourceType::Common)
             .with_traffic_type(if round == 0 { TrafficType::Inbound } else { TrafficType::Outbound })
@@ -148,6 +152,16 @@ pub fn c12_flow(s: Shape) {
         vrt::check(active == 0, "C12:invalid-rule-enforced");
     }
     drive(&res, 1, false);
+    if s.p[7] == 1 && !res.is_empty() {
+        let good = Arc::new(flow::Rule { id: "good2".into(), resource: res.clone(), threshold: 1000.0, ..Default::default() });
+        flow::append_rule(good);
+        let now = flow::get_rules_of_resource(&res).len();
+        vrt::cover("later-append");
+        if !valid {
+            vrt::check(now == 1, "C12:invalid-rule-enforced-after-a-later-append");
+        }
+        drive_from(&res, 1, false, T0 + 12_500, false);
+    }
     health_probe();
 }
 
@@ -194,6 +208,26 @@ pub fn c12_breaker(s: Shape) {
         vrt::check(active == 0, "C12:invalid-rule-enforced");
     }
     drive(&res, 0, false);
+    if s.p[7] == 1 && !res.is_empty() {
+        let good = Arc::new(cb::Rule {
+            id: "good".into(),
+            resource: res.clone(),
+            strategy: cb::BreakerStrategy::ErrorCount,
+            retry_timeout_ms: 1000,
+            min_request_amount: 1,
+            stat_interval_ms: 1000,
+            stat_sliding_window_bucket_count: 1,
+            max_allowed_rt_ms: 0,
+            threshold: 1000.0,
+        });
+        cb::append_rule(good);
+        let now = cb::get_breakers_of_resource(&res).len();
+        vrt::cover("later-append");
+        if !valid {
+            vrt::check(now == 1, "C12:invalid-rule-enforced-after-a-later-append");
+        }
+        drive_from(&res, 0, false, T0 + 12_500, false);
+    }
     health_probe();
 }
 
@@ -244,6 +278,26 @@ pub fn c12_hotspot(s: Shape) {
         vrt::check(active == 0, "C12:invalid-rule-enforced");
     }
     drive(&res, s.p[4] as usize, s.p[5] == 1);
+    if s.p[7] == 1 && !res.is_empty() {
+        // a later valid update of the same resource must not bring an ignored rule back
+        let good = Arc::new(hotspot::Rule {
+            id: "good".into(),
+            resource: res.clone(),
+            metric_type: hotspot::MetricType::QPS,
+            control_strategy: hotspot::ControlStrategy::Reject,
+            param_index: 0,
+            threshold: 1000,
+            duration_in_sec: 1,
+            ..Default::default()
+        });
+        hotspot::append_rule(good);
+        let now = hotspot::get_rules_of_resource(&res).len();
+        vrt::cover("later-append");
+        if !valid {
+            vrt::check(now == 1, "C12:invalid-rule-enforced-after-a-later-append");
+        }
+        drive_from(&res, s.p[4] as usize, s.p[5] == 1, T0 + 12_500, false);
+    }
     health_probe();
 }
 
